@@ -62,6 +62,22 @@ void vrec_phase(int ph);
 #define silk_PLC(a, b, c, d, e) (vrec_phase(2), verif_PLC((a), (b), (c), (d), (e)), vrec_phase(3))
 #define silk_CNG(a, b, c, d) (vrec_phase(4), verif_CNG((a), (b), (c), (d)), vrec_phase(3))
 #define silk_PLC_glue_frames(a, b, c) (vrec_phase(5), verif_PLC_glue_frames((a), (b), (c)), vrec_phase(3))
+/* silk_decode_parameters itself (mode `params`): with silk_gains_dequant and silk_decode_pitch compiled here, and
+   silk_NLSF_decode / silk_NLSF2A as library calls behind shims that note the argument arrays they read / fill */
+#define silk_gains_quant verif_gains_quant
+#define silk_gains_dequant verif_gains_dequant
+#define silk_gains_ID verif_gains_ID
+#include "gain_quant.c"
+#undef OFFSET
+#undef SCALE_Q16
+#undef INV_SCALE_Q16
+#define silk_decode_pitch verif_decode_pitch
+#include "decode_pitch.c"
+#define silk_NLSF_decode(out, idx, cb) (vrec_note((idx), (long)((cb)->order + 1), 0), (silk_NLSF_decode)((out), (idx), (cb)))
+#define silk_decode_parameters verif_decode_parameters
+#include "decode_parameters.c"
+#undef silk_decode_parameters
+#undef silk_NLSF_decode
 /* the bit-stream side of a good frame is scripted by the driver */
 void vstub_decode_indices(silk_decoder_state *psDec, ec_dec *psRangeDec, opus_int FrameIndex, opus_int decode_LBRR, opus_int condCoding);
 void vstub_decode_pulses(ec_dec *psRangeDec, opus_int16 pulses[], const opus_int signalType, const opus_int quantOffsetType, const opus_int frame_length);
